@@ -68,6 +68,30 @@ def run(rep):
                 rep.violation(dict(kind="oracle", what="a collection pass changed the result of a later operation", case=c,
                                    outputs=outs, outputs_without_gc=ref))
     rep.coverage["gc_variant_groups"] = len(groups)
+    # scripted cases (oracle on the implementation's own answers, not modelled): a reader obtained BEFORE an overwrite and
+    # a collection pass still delivers the content it was opened on (lazy1, lazy2); a snapshot begun while a pass is
+    # parked after choosing its horizon (pause point gc.afterOldest) keeps reading its version (hz1)
+    from lib import common as C
+    sc = P.corpus("c09_scripted.txt")
+    sbad = 0
+    for c in sc:
+        o = C.run_lines(C.FSDBH, "hist", c.split("\n"), timeout=120)
+        ops = [l for l in c.split("\n") if not l.startswith("keytab")]
+        res = list(zip(ops, o))
+        cid = ops[0].split()[1]
+        if any(r in ("AWAIT-TIMEOUT", "WAIT-TIMEOUT") for r in o):
+            raise C.CheckBroken("scripted collector schedule did not run as scripted: %s" % o)
+        gets = [r for l, r in res if l.startswith("get ")]
+        if cid.startswith("lazy"):
+            want = gets[0]
+            got = next(r for l, r in res if l.startswith("readr"))
+        else:
+            want, got = gets[0], gets[1]
+        if got != want or not want.startswith("val "):
+            sbad += 1
+            rep.violation(dict(kind="oracle", what="a collection pass changed what a reader that was already open / a snapshot that had "
+                               "already begun reads: %s instead of %s" % (got, want), case=c, impl=o))
+    rep.coverage["scripted_collector_cases"] = dict(cases=len(sc), violations=sbad)
     rep.assumptions = ["collector invoked synchronously between operations (concurrent GC: C06/C08)"]
 
 
